@@ -13,6 +13,7 @@ class has one feature with more than 1000 direct children, the last of which hav
 import os
 import random
 import tempfile
+from collections import Counter
 
 from gvmon import dbdump
 from gvmon.gen import graphs as G
@@ -109,15 +110,21 @@ def shown(case, oi, order, text):
     return order, text
 
 
+def model_of(nodes):
+    visible, lower, upper = H.gff3_triples(nodes)
+    return H.Relatives(visible, [n["id"] for n in nodes]), lower, upper
+
+
 def execute(ctx, case):
     g = graph_of(case)
-    nodes = g["nodes"]
-    visible, lower, upper = H.gff3_triples(nodes)
-    stored = [n["id"] for n in nodes]
-    rel = H.Relatives(visible, stored)
+    idless = any(n.get("noid") for n in g["nodes"])
+    model = None if idless else model_of(g["nodes"])
     first = None
     for oi, order in enumerate(orders_of(case)):
-        table = one_import(ctx, case, oi, order, rel, lower, upper)
+        # lines without an ID attribute: the stored ids, hence the model, depend on the line order
+        nodes = H.resolve_ids(g["nodes"], order)
+        rel, lower, upper = model or model_of(nodes)
+        table = one_import(ctx, case, oi, order, nodes, rel, lower, upper)
         order = shown(case, oi, order, "")[0]
         for v in contracts.drain():
             ctx.violation(case, dict(v, why=tag(case) + "contract: " + str(v.get("why"))))
@@ -128,7 +135,7 @@ def execute(ctx, case):
         elif table != first[1]:
             ctx.violation(case, {"why": tag(case) + "the relation set depends on the order of the lines",
                                  "order_a": first[0], "order_b": order,
-                                 "only_a": sorted(first[1] - table)[:10], "only_b": sorted(table - first[1])[:10],
+                                 "only_a": sorted(set(first[1]) - set(table))[:10], "only_b": sorted(set(table) - set(first[1]))[:10],
                                  "text_a": None if case["kind"] == "wide" else G.text_of(g, first[0]),
                                  "text_b": None if case["kind"] == "wide" else G.text_of(g, order)})
             return
@@ -136,14 +143,19 @@ def execute(ctx, case):
             ctx.mon("line-order pairs with identical relation sets")
 
 
-def one_import(ctx, case, oi, order, rel, lower, upper):
-    """Import one line order; returns the relation set read from the table, or None after a violation."""
+def one_import(ctx, case, oi, order, nodes, rel, lower, upper):
+    """Import one line order (nodes: the graph's nodes with the ids of this order); returns the relation rows read from
+    the table (sorted; the ids of id-less lines replaced by the text of their line), or None after a violation."""
     import gffutils
 
     g = graph_of(case)
-    nodes = g["nodes"]
     byid = {n["id"]: n for n in nodes}
     text = G.text_of(g, order)
+    # id-less lines: stored id -> text of the line; `twin`: those whose text occurs more than once in the file
+    anon = {n["id"]: G.line_of(n, g.get("edge", "raw")) for n in nodes if n.get("noid")}
+    ntext = Counter(anon.values())
+    twin = {i: t for i, t in anon.items() if ntext[t] > 1}
+    minority = mixed_minority(nodes)
     full_order = order
     T = tag(case)
     src = None
@@ -165,11 +177,26 @@ def one_import(ctx, case, oi, order, rel, lower, upper):
             ctx.violation(case, {"why": T + "create_db raised %s" % type(ex).__name__, "error": repr(ex), "order": order, "text": text})
             return None
         ctx.mon("imports")
+        if anon:
+            ctx.mon("id-less: imports with lines that have no ID attribute")
+            ctx.mon("id-less: lines without ID attribute imported", len(anon))
+            ctx.mon("id-less: byte-identical lines imported (beyond the first of each text)", len(twin) - len(set(twin.values())))
+        if minority:
+            rk = bool(db.dialect.get("repeated keys"))
+            if rk and minority["comma"]:
+                ctx.mon("mixed spelling: imports whose inferred dialect says 'repeated keys' with a comma-list Parent of >= 2 values")
+                ctx.mon("mixed spelling: comma-list Parent values (>= 2) under an inferred 'repeated keys' dialect", minority["comma"])
+            if not rk and minority["repeat"]:
+                ctx.mon("mixed spelling: imports whose inferred dialect says no repeated keys with a Parent written as repeated keys")
+            if minority["both"]:
+                ctx.mon("mixed spelling: lines with a comma-list Parent and another attribute as repeated keys", minority["both"])
         # -- the stored features: one per line, no phantom ---------------------------------------------
         dump = dbdump.dump_db(db)
         got_ids = sorted(f["id"] for f in dump["features"])
         if got_ids != sorted(byid):
-            ctx.violation(case, {"why": T + "stored features differ from the lines (phantom or missing feature)",
+            ctx.violation(case, {"why": T + "stored features differ from the lines (phantom or missing feature%s)"
+                                        % ("; a line without ID is expected under '<featuretype>_<n>', n counting such lines "
+                                           "of that featuretype in file order" if anon else ""),
                                  "unexpected": sorted(set(got_ids) - set(byid)), "missing": sorted(set(byid) - set(got_ids)),
                                  "order": order, "text": text})
             return None
@@ -229,6 +256,8 @@ def one_import(ctx, case, oi, order, rel, lower, upper):
                             return None
                     if exp:
                         ctx.mon("non-empty relative sets compared")
+                        if anon:
+                            observe_idless(ctx, name, level, x, exp, anon, twin)
                     if level is None:
                         ctx.mon("shortcut relatives (level 1 and level 2 of one feature) returned once for level=None",
                                 len(model(x, 1) & model(x, 2)))
@@ -265,7 +294,7 @@ def one_import(ctx, case, oi, order, rel, lower, upper):
                 return None
         ctx.mon("sql: SELECT DISTINCT ... JOIN relations statements traced",
                 sum(1 for _, s in sqltrace.LOG if "JOIN relations" in s and "DISTINCT" in s))
-        return table
+        return tuple(sorted((anon.get(p, p), anon.get(c, c), lv) for p, c, lv in table))
     finally:
         if db is not None:
             try:
@@ -284,6 +313,33 @@ def one_import(ctx, case, oi, order, rel, lower, upper):
                         os.unlink(os.path.join(tdir, name))
                     except OSError:
                         pass
+
+
+def mixed_minority(nodes):
+    """Counts of the lines that matter for the mixed-spelling class (None when the file has no line with >= 2 parents)."""
+    multi = [n for n in nodes if len(n["parents"]) >= 2]
+    if not multi:
+        return None
+    rep_other = lambda n: len({e.split("=")[0] for e in n.get("extra") or []}) < len(n.get("extra") or [])
+    return {"comma": sum(1 for n in multi if n["style"] == "comma"), "repeat": sum(1 for n in multi if n["style"] == "repeat"),
+            "both": sum(1 for n in multi if n["style"] == "comma" and rep_other(n))}
+
+
+def observe_idless(ctx, name, level, x, exp, anon, twin):
+    """Monitors of the id-less class for one agreeing, non-empty children()/parents() result."""
+    if name == "parents":
+        if x in anon:
+            ctx.mon("id-less: parents() of a feature without ID attribute compared (non-empty)")
+            if x in twin:
+                ctx.mon("id-less: parents() of one of several byte-identical features compared (non-empty)")
+        return
+    n_anon = sum(1 for i in exp if i in anon)
+    if n_anon:
+        ctx.mon("id-less: children() results holding features without ID attribute, level=%r" % (level,))
+    groups = Counter(twin[i] for i in exp if i in twin)
+    if any(v > 1 for v in groups.values()):
+        ctx.mon("id-less: children() results holding >= 2 byte-identical features, each returned once, level=%r" % (level,))
+        ctx.mon("id-less: byte-identical features returned side by side", sum(v for v in groups.values() if v > 1))
 
 
 def interleaved(ctx, case, db, q, rel, byid, order, text):
@@ -447,7 +503,7 @@ def argument_query(ctx, case, db, q, rel, byid, busy, order, text):
 
 def classify(ctx, case):
     g = graph_of(case)
-    nodes = g["nodes"]
+    nodes = H.resolve_ids(g["nodes"], range(len(g["nodes"])))     # the shape of the graph is the same for every order
     ids = {n["id"] for n in nodes}
     visible, lower, upper = H.gff3_triples(nodes)
     multi = any(len(n["parents"]) > 1 for n in nodes)
@@ -474,12 +530,31 @@ def classify(ctx, case):
         if cond:
             ctx.classes[name] += 1
     ctx.classes["ids=" + case["ids"]] += 1
+    klass = case.get("klass")
+    if klass == "idless":
+        ctx.classes["lines without ID attribute"] += 1
+        texts = Counter(G.line_of(n) for n in nodes if n.get("noid"))
+        twins = {t for t, k in texts.items() if k > 1}
+        if twins:
+            ctx.classes["lines without ID attribute: byte-identical lines"] += 1
+            if any(len(n["parents"]) > 1 for n in nodes if n.get("noid") and G.line_of(n) in twins):
+                ctx.classes["lines without ID attribute: byte-identical lines with >= 2 parents"] += 1
+        for v in case.get("variants", ()):
+            ctx.classes["lines without ID attribute: " + v] += 1
+        return True
+    if klass == "mixed":
+        ctx.classes["mixed spelling: majority %s" % case["majority"]] += 1
+        return True
+    if klass == "confusable":
+        ctx.classes["confusable ids: " + case["family"]] += 1
+        return True
     return multi or lvl2 or dang
 
 
 def children_first(nodes, order):
-    pos = {nodes[i]["id"]: k for k, i in enumerate(order)}
-    return any(p in pos and pos[p] > pos[n["id"]] for n in nodes for p in n["parents"])
+    at = {i: k for k, i in enumerate(order)}
+    pos = {nodes[i]["id"]: k for k, i in enumerate(order) if not nodes[i].get("noid")}
+    return any(p in pos and pos[p] > at[j] for j, n in enumerate(nodes) for p in n["parents"])
 
 
 def account(ctx, case):
@@ -491,10 +566,15 @@ def account(ctx, case):
                      sample={"wide": case["wide"], "order": spec})
         return
     canon = G.canonical(g)
+    klass = case.get("klass")
+    cls = {None: "line orders imported", "idless": "line orders imported (lines without ID attribute)",
+           "mixed": "line orders imported (mixed spelling of several parents)",
+           "confusable": "line orders imported (look-alike ids)"}[klass]
+    extra = G.spelling(g) if klass == "mixed" else None
     for order in orders_of(case):
         if children_first(g["nodes"], order):
             ctx.classes["order=children first"] += 1
-        ctx.case((canon, order, case["ids"], g.get("edge")), nontrivial, cls="line orders imported",
+        ctx.case((canon, order, case["ids"], g.get("edge"), repr(extra)), nontrivial, cls=cls,
                  sample={"ids": case["ids"], "order": order, "text": G.text_of(g, order)[:700]})
 
 
@@ -518,7 +598,7 @@ def run(ctx):
         execute(ctx, case)
         account(ctx, case)
     # 1. word-like ids (first: its violations are reported before those of the hostile class)
-    for i in range(ctx.budget(700, 9000)):
+    for i in range(ctx.budget(620, 9000)):
         g = G.graph(rng)
         n = len(g["nodes"])
         every = n > 1 and (n <= 5 or (n == 6 and i % 16 == 0)) if thorough else (1 < n <= 5 and i % 6 == 0)
@@ -547,6 +627,47 @@ def run(ctx):
                 "orders": G.sample_orders(rng, n, 2), "nqueries": 4, "db": "memory", "input": "path"}
         for fl in flavours:
             ctx.classes["hostile id: " + fl] += 1
+        execute(ctx, case)
+        account(ctx, case)
+    # 3. lines without an ID attribute, several of them byte-identical
+    for i in range(ctx.budget(140, 2400)):
+        g = G.graph(rng, max_nodes=10)
+        variants = G.make_idless(rng, g)
+        if not variants:
+            ctx.mon("generator: graphs without a line that could lose its ID (not imported)")
+            continue
+        n = len(g["nodes"])
+        every = n <= 5 and (thorough or i % 4 == 0)
+        case = {"kind": "graph", "klass": "idless", "ids": "word", "variants": sorted(set(variants)), "graph": g,
+                "qseed": rng.randrange(10 ** 9), "orders": "all" if every else G.sample_orders(rng, n, 3),
+                "nqueries": 3 if every else 5, "db": "file" if rng.random() < 0.15 else "memory",
+                "input": "string" if rng.random() < 0.15 else "path"}
+        execute(ctx, case)
+        account(ctx, case)
+    # 4. both spellings of several parents in one file (repeated keys / comma list), either one in the majority
+    for i in range(ctx.budget(100, 2000)):
+        g = G.graph(rng)
+        majority = "repeat" if i % 4 else "comma"
+        if not G.make_mixed(rng, g, majority):
+            ctx.mon("generator: graphs in which no line could get two parents (not imported)")
+            continue
+        n = len(g["nodes"])
+        case = {"kind": "graph", "klass": "mixed", "majority": majority, "ids": "word", "graph": g,
+                "qseed": rng.randrange(10 ** 9), "orders": G.sample_orders(rng, n, 3), "nqueries": 3,
+                "db": "memory", "input": "string" if rng.random() < 0.15 else "path"}
+        execute(ctx, case)
+        account(ctx, case)
+    # 5. look-alike ids: letter case only, numeric-looking, SQL wildcard characters
+    for _ in range(ctx.budget(100, 2000)):
+        g = G.graph(rng)
+        fam = G.make_confusable(rng, g)
+        if not fam:
+            continue
+        n = len(g["nodes"])
+        case = {"kind": "graph", "klass": "confusable", "family": fam[0], "ids": "confusable", "graph": g,
+                "qseed": rng.randrange(10 ** 9), "orders": G.sample_orders(rng, n, 3), "nqueries": 4,
+                "db": "file" if rng.random() < 0.15 else "memory", "input": "path"}
+        ctx.mon("look-alike ids: ids / Parent values renamed within one family", fam[1])
         execute(ctx, case)
         account(ctx, case)
     ctx.mon("make_query contract evaluations", contracts.EVALS["helpers.make_query"])
